@@ -296,10 +296,10 @@ pub fn def() -> PropDef {
         rule: "one case = a seeded history of subscribe/unsubscribe calls over topics {'', a, ab, b} interleaved with scripted publishers joining by accept (background handshake, concurrent with the following calls) or by connect, quiescent points, and in one stratum one publisher's connection failing (close / reset / write error); join_points enumerates the position of an accept-join among four calls x early publisher present or not; each publisher's inbound tap is folded into topic counts and compared at quiescence; non-trivial = at least two publishers judged; distinct = distinct (plan, schedule, transport) hashes",
         assumptions: &["with duplicate subscribes of one topic only agreement between peers is required (the statement does not choose between set and multiset semantics)", "a publisher counts as connected once the socket has written its READY to it"],
         strata: vec![
-            Stratum { name: "clean", quick: 120_000, thorough: 1_500_000, exhaustive: (false, false), run: clean, what: "no topic subscribed twice, no failures: every publisher's view equals the socket's set" },
-            Stratum { name: "with_duplicates", quick: 50_000, thorough: 500_000, exhaustive: (false, false), run: with_duplicates, what: "duplicate subscribes allowed: publishers must agree" },
-            Stratum { name: "one_peer_fails", quick: 80_000, thorough: 1_000_000, exhaustive: (false, false), run: one_peer_fails, what: "one publisher's connection fails; the others must still be updated" },
-            Stratum { name: "join_points", quick: 60_000, thorough: 500_000, exhaustive: (false, false), run: join_points, what: "accept-join enumerated at every position among four calls" },
+            Stratum { name: "clean", quick: 120_000, thorough: (1_500_000) * 5, exhaustive: (false, false), run: clean, what: "no topic subscribed twice, no failures: every publisher's view equals the socket's set" },
+            Stratum { name: "with_duplicates", quick: 50_000, thorough: (500_000) * 5, exhaustive: (false, false), run: with_duplicates, what: "duplicate subscribes allowed: publishers must agree" },
+            Stratum { name: "one_peer_fails", quick: 80_000, thorough: (1_000_000) * 5, exhaustive: (false, false), run: one_peer_fails, what: "one publisher's connection fails; the others must still be updated" },
+            Stratum { name: "join_points", quick: 60_000, thorough: (500_000) * 5, exhaustive: (false, false), run: join_points, what: "accept-join enumerated at every position among four calls" },
         ],
     }
 }
